@@ -324,6 +324,93 @@ def genexp_to_generator(fn: ast.FunctionDef) -> Optional[ast.FunctionDef]:
     return new
 
 
+MEMO_DECORATORS = {"functools.lru_cache", "functools.cache", "lru_cache", "cache"}
+_IMMUTABLE_TYPES = {"str", "bytes", "int", "float", "bool", "complex", "None", "frozenset", "date", "datetime", "time", "timedelta",
+                    "tzinfo", "ZoneInfo", "timezone", "Decimal", "Fraction", "UUID", "PurePath", "PurePosixPath", "Path"}
+_IMMUTABLE_CALLS = {"tuple", "frozenset", "str", "bytes", "int", "float", "bool", "len", "repr", "hash", "ord", "chr", "hex", "abs", "min", "max", "sum"}
+_IMMUTABLE_METHODS = {"decode", "encode", "hexdigest", "digest", "strip", "lstrip", "rstrip", "lower", "upper", "casefold", "title", "join", "format",
+                      "replace", "removeprefix", "removesuffix", "isoformat"}
+
+
+def _immutable_annotation(a: Optional[ast.AST]) -> bool:
+    if a is None:
+        return False
+    if isinstance(a, ast.Constant):
+        if a.value is None:
+            return True
+        if isinstance(a.value, str):
+            try:
+                return _immutable_annotation(ast.parse(a.value, mode="eval").body)
+            except SyntaxError:
+                return False
+        return False
+    if isinstance(a, (ast.Name, ast.Attribute)):
+        return (dotted(a) or "").split(".")[-1] in _IMMUTABLE_TYPES
+    if isinstance(a, ast.BinOp) and isinstance(a.op, ast.BitOr):
+        return _immutable_annotation(a.left) and _immutable_annotation(a.right)
+    if isinstance(a, ast.Subscript):
+        head = (dotted(a.value) or "").split(".")[-1]
+        args = a.slice.elts if isinstance(a.slice, ast.Tuple) else [a.slice]
+        args = [x for x in args if not (isinstance(x, ast.Constant) and x.value is Ellipsis)]
+        if head in ("Optional", "Union", "tuple", "Tuple", "frozenset", "FrozenSet"):
+            return all(_immutable_annotation(x) for x in args)
+    return False
+
+
+def returns_immutable(fn: ast.AST) -> bool:
+    """Every value the function returns is visibly immutable: by its return annotation, or because every returned
+    expression is a literal / a tuple of such / the result of a conversion that yields an immutable object."""
+    if _immutable_annotation(getattr(fn, "returns", None)):
+        return True
+    assigned: Dict[str, List[Optional[ast.AST]]] = {}
+    for n in walk_local(fn):
+        if isinstance(n, (ast.Assign, ast.AnnAssign, ast.AugAssign)):
+            tgts = n.targets if isinstance(n, ast.Assign) else [n.target]
+            for t in tgts:
+                if isinstance(t, ast.Name):
+                    assigned.setdefault(t.id, []).append(n.value)
+                else:
+                    for x in ast.walk(t):
+                        if isinstance(x, ast.Name):
+                            assigned.setdefault(x.id, []).append(None)
+        elif isinstance(n, (ast.For, ast.AsyncFor, ast.With, ast.AsyncWith, ast.NamedExpr)):
+            for x in ast.walk(n.target if hasattr(n, "target") else ast.Tuple(elts=[i.optional_vars for i in n.items if i.optional_vars is not None])):
+                if isinstance(x, ast.Name):
+                    assigned.setdefault(x.id, []).append(None)
+
+    def imm(e, depth=0) -> bool:
+        if e is None or depth > 6:
+            return False
+        if isinstance(e, (ast.Constant, ast.JoinedStr)):
+            return True
+        if isinstance(e, ast.Tuple):
+            return all(imm(x, depth + 1) for x in e.elts)
+        if isinstance(e, (ast.Compare,)):
+            return True
+        if isinstance(e, ast.BinOp):
+            return imm(e.left, depth + 1) and imm(e.right, depth + 1)
+        if isinstance(e, ast.BoolOp):
+            return all(imm(x, depth + 1) for x in e.values)
+        if isinstance(e, ast.UnaryOp):
+            return isinstance(e.op, ast.Not) or imm(e.operand, depth + 1)
+        if isinstance(e, ast.IfExp):
+            return imm(e.body, depth + 1) and imm(e.orelse, depth + 1)
+        if isinstance(e, ast.Call):
+            d = dotted(e.func) or ""
+            if d in _IMMUTABLE_CALLS:
+                return True
+            if isinstance(e.func, ast.Attribute) and e.func.attr in _IMMUTABLE_METHODS:
+                return True
+            return False
+        if isinstance(e, ast.Name):
+            vals = assigned.get(e.id)
+            return bool(vals) and all(v is not None and imm(v, depth + 1) for v in vals)
+        return False
+
+    rets = [n for n in walk_local(fn) if isinstance(n, ast.Return)]
+    return bool(rets) and all(imm(r.value) for r in rets if r.value is not None)
+
+
 class Inliner:
     def __init__(self, program, reference: Optional[Set[str]]):
         self.P = program
@@ -476,6 +563,10 @@ class Inliner:
             return "*args/**kwargs"
         decos = set(t.decorators)
         allowed = {"staticmethod", "classmethod", "contextmanager", "contextlib.contextmanager"}
+        if decos & MEMO_DECORATORS and returns_immutable(t.node):
+            # a memoised function whose results cannot be modified computes what its body computes; one that hands
+            # out a mutable object shares it between callers and stays a call the rules can see
+            allowed = allowed | MEMO_DECORATORS
         if decos - allowed:
             return "decorated with %s" % sorted(decos - allowed)
         is_cm = bool(decos & {"contextmanager", "contextlib.contextmanager"})
